@@ -364,28 +364,29 @@ theorem riscv_chunk_stable (e : Bool) : ChunkStable (riscvCode e) := by
 open XzVerif.Simple in
 /-- `lzma_bcj_{x86,arm64,riscv}_{encode,decode}(start_offset, buf, size)` leave in `buf` exactly the bytes that the streaming coder
     (`lzma_simple_coder` set up by the init function with the same start offset, a pass-through next filter, the whole input offered with
-    LZMA_FINISH and enough output space) produces; that call consumes everything and returns LZMA_STREAM_END. -/
+    LZMA_FINISH and enough output space) produces, whatever the size of its temporary buffer; that call consumes everything and returns
+    LZMA_STREAM_END. -/
 theorem oneshot_eq_stream (id : FilterId) (hid : id = .x86 ∨ id = .arm64 ∨ id = .riscv) (enc : Bool) (off : BitVec 32) (x : List UInt8)
-    (cap : Nat) (hal : off.toNat % id.alignment = 0) (hcap : x.length ≤ cap) (hx : x ≠ []) :
-    ∃ c r, Coder.init id enc Next.passthrough off = some c ∧ oneShot id enc off x = some r
+    (cap : Nat) (hal : off.toNat % id.alignment = 0) (hcap : x.length ≤ cap) (hx : x ≠ []) (alloc : Nat) :
+    ∃ c r, Coder.init id enc Next.passthrough off alloc = some c ∧ oneShot id enc off x = some r
       ∧ (simpleCode c x cap Action.finish).2 = ⟨x.length, r.1, LZMA_STREAM_END⟩ := by
   have hlen : 0 < x.length := List.length_pos_iff.mpr hx
   have hmin : min x.length cap = x.length := Nat.min_eq_left hcap
   have hne : (x.length == 0) = false := by simp; omega
   have hcap0 : cap > 0 := by omega
   rcases hid with rfl | rfl | rfl
-  · refine ⟨⟨.x86, enc, Next.passthrough, false, off, 10, 0, 0, 0, [], X86State.init⟩, _, by simp [Coder.init, FilterId.alignment, FilterId.unfilteredMax, Nat.mod_one], rfl, ?_⟩
+  · refine ⟨⟨.x86, enc, Next.passthrough, false, off, alloc, 0, 0, 0, [], X86State.init⟩, _, by simp [Coder.init, FilterId.alignment, Nat.mod_one], rfl, ?_⟩
     simp [simpleCode, simpleCodeMain, copyOrCode, callFilter, filterCode, hmin, hne, hcap0, LZMA_STREAM_END]
     rfl
   · have h4 : off &&& 3#32 = 0#32 := and_of_mod (k := 2) off (by omega) hal
     have hoff : off &&& 4294967292#32 = off := and_not3 off h4
     have hal' : off.toNat % 4 = 0 := hal
-    refine ⟨⟨.arm64, enc, Next.passthrough, false, off, 8, 0, 0, 0, [], X86State.init⟩, _, by simp [Coder.init, FilterId.alignment, FilterId.unfilteredMax, hal'], rfl, ?_⟩
+    refine ⟨⟨.arm64, enc, Next.passthrough, false, off, alloc, 0, 0, 0, [], X86State.init⟩, _, by simp [Coder.init, FilterId.alignment, hal'], rfl, ?_⟩
     simp [simpleCode, simpleCodeMain, copyOrCode, callFilter, filterCode, hmin, hne, hcap0, hoff, LZMA_STREAM_END]
   · have h2 : off &&& 1#32 = 0#32 := and_of_mod (k := 1) off (by omega) hal
     have hoff : off &&& 4294967294#32 = off := and_not1 off h2
     have hal' : off.toNat % 2 = 0 := hal
-    refine ⟨⟨.riscv, enc, Next.passthrough, false, off, 16, 0, 0, 0, [], X86State.init⟩, _, by simp [Coder.init, FilterId.alignment, FilterId.unfilteredMax, hal'], rfl, ?_⟩
+    refine ⟨⟨.riscv, enc, Next.passthrough, false, off, alloc, 0, 0, 0, [], X86State.init⟩, _, by simp [Coder.init, FilterId.alignment, hal'], rfl, ?_⟩
     simp [simpleCode, simpleCodeMain, copyOrCode, callFilter, filterCode, hmin, hne, hcap0, hoff, LZMA_STREAM_END]
 
 /-! ## Handle reuse: initialisation does not depend on what the coder object was used for before -/
@@ -401,20 +402,22 @@ theorem delta_init_independent_of_previous (prev : Delta.State) (d : Nat) (x : L
 open XzVerif.Simple in
 /-- Same for `lzma_simple_coder_init` (+ the x86 init): a reused coder starts at `now_pos = start_offset`, `prev_mask = 0`,
     `prev_pos = -5`, an empty buffer and no end flag, exactly like a new one. -/
-theorem simple_init_independent_of_previous (prev : Coder) (h : prev.allocated = 2 * prev.id.unfilteredMax) (enc : Bool) (next : Next)
-    (off : BitVec 32) : prev.reinit enc next off = Coder.init prev.id enc next off := by
+theorem simple_init_independent_of_previous (prev : Coder) (enc : Bool) (next : Next) (off : BitVec 32) :
+    prev.reinit enc next off = Coder.init prev.id enc next off prev.allocated := by
   unfold Coder.reinit Coder.init
-  split
-  · rfl
-  · rw [h]
+  split <;> rfl
 
 /-! ## Bridges to what the code under test does today (lean/XzVerif/Gen/C15.lean is regenerated on every check by running it) -/
 
 open XzVerif.Simple in
-/-- `lzma_simple_coder_init` parameters of the eight filters (alignment of the start offset, buffer = 2 × unfiltered_max), encoder and decoder -/
+/-- `lzma_simple_coder_init` parameters of the eight filters as observed on the tree: the start-offset alignment is the reference one, and
+    the temporary buffer has room for at least `2 × unfiltered_max` bytes (what `simple_code` needs to always make progress; the exact
+    size only changes how a stream is split over calls, never its bytes), encoder and decoder. -/
 theorem gen_filter_params :
-    Gen.C15.filterParams = [FilterId.x86, .powerpc, .ia64, .arm, .armthumb, .sparc, .arm64, .riscv].map
-      (fun f => (f.alignment, 2 * f.unfilteredMax, f.alignment, 2 * f.unfilteredMax)) := by decide
+    Gen.C15.filterParams.length = 8
+    ∧ ((List.zip [FilterId.x86, .powerpc, .ia64, .arm, .armthumb, .sparc, .arm64, .riscv] Gen.C15.filterParams).all
+        fun (f, ae, me, ad, md) => ae == f.alignment && ad == f.alignment && decide (2 * f.unfilteredMax ≤ me)
+          && decide (2 * f.unfilteredMax ≤ md)) = true := by decide
 
 /-- delta distances accepted by the init function are exactly 1..256 -/
 theorem gen_delta_dist :
